@@ -210,15 +210,21 @@ def main():
         for n, why in inconclusive:
             print('INCONCLUSIVE unit=%s: %s' % (n, why[:1500]))
         return 2
-    print('OK property=%s: %d units, all obligations discharged (%.0fs)' % (prop, len(sel), wall))
+    if kf_lines:
+        print('OK property=%s: %d units, every obligation discharged except those of the %d listed known findings above (%.0fs)' % (prop, len(sel), len(set(kf_lines)), wall))
+    else:
+        print('OK property=%s: %d units, all obligations discharged (%.0fs)' % (prop, len(sel), wall))
     return 0
 
 
 def write_evidence(prop, tier, seed, sel, res, cross, violations, inconclusive, notes, kf_lines, wall, coverage=None):
     coverage = coverage or {}
     proof_u = [u for u in sel if u.route == 'proof']
-    obligations = sum(res[u.name].get('obligations', 0) for u in proof_u)
-    discharged = sum(res[u.name].get('discharged', 0) for u in proof_u)
+    # the proof-level totals count the units whose every obligation is discharged; a unit with a failing obligation (a listed known finding, or
+    # a violation of this run) is NOT counted as proved: it is listed under units_not_discharged with its status and its obligation counts
+    proved_u = [u for u in proof_u if res[u.name].get('status') == 'discharged']
+    obligations = sum(res[u.name].get('obligations', 0) for u in proved_u)
+    discharged = sum(res[u.name].get('discharged', 0) for u in proved_u)
     samples = []
     for u in sel:
         for s in res[u.name].get('samples', [])[:2]:
@@ -254,13 +260,17 @@ def write_evidence(prop, tier, seed, sel, res, cross, violations, inconclusive, 
         obligations=obligations, discharged=discharged,
         checker_cmd=(res[proof_u[0].name].get('checker_cmd') if proof_u else None) or 'goto-cc | goto-instrument --dfcc | cbmc (see units)',
         trusted_base=U.TRUSTED_BASE + meta.get('trusted', []),
-        explanation='obligations/discharged count the proof-route units only (every loop closed by a loop contract, loop-free, '
+        explanation='obligations/discharged count the proof-route units that are completely discharged (every loop closed by a loop contract, loop-free, '
                     'or bounded by a compile-time constant of the configuration); bounded and lemma units are listed separately '
                     'and never counted as proved.',
         functions_under_contract=sorted(set(u.func for u in sel if u.func)),
         proof_units=[urec(u) for u in sel if u.route == 'proof'],
         bounded_units=[urec(u) for u in sel if u.route == 'bounded'],
         lemma_units=[urec(u) for u in sel if u.route == 'lemma'],
+        units_not_discharged=[dict(unit=u.name, route=u.route, status=res[u.name].get('status'), obligations=res[u.name].get('obligations', 0),
+                                   discharged=res[u.name].get('discharged', 0),
+                                   failed_obligations=[f['obligation'] for f in res[u.name].get('failed', [])][:12])
+                              for u in sel if res[u.name].get('status') != 'discharged'],
         not_covered=meta.get('not_covered', ''),
         samples=samples or [dict(note='no discharged obligation to sample')],
         solver_seconds_total=round(sum(res[u.name].get('solver_s', 0) or 0 for u in sel), 1),
